@@ -36,6 +36,7 @@ func s1Table() []GuardRow {
 	}
 	return []GuardRow{
 		{Pkg: pkgLctx, Struct: "memoryState", Fields: []string{"contextMemory"}, Mutex: "mutex", MinSites: 12, Only: atomicOnly},
+		{Pkg: pkgLctx, Struct: "memoryState", Fields: []string{"clock"}, Mutex: "mutex", MinSites: 4},
 		{Pkg: pkgQuota, Struct: "quota", Fields: []string{"allowedByReqID", "windowStart"}, Mutex: "mutex", MinSites: 9},
 		{Pkg: pkgQuota, Struct: "fixedWindow", Fields: []string{"quotaGroups"}, Mutex: "getQuotaLock", MinSites: 5},
 		{Pkg: pkgQuota, Struct: "concurrentStrategy", Fields: []string{"allowedReq"}, Mutex: "mutex", MinSites: 6},
@@ -61,6 +62,8 @@ func s1Table() []GuardRow {
 }
 
 func runC18(w *World, r *Report) {
+	// the waiter is watched before its id can be popped (C06.R3)
+	r.Borrow(w, runC06, map[string]string{"R3": "R6"})
 	la := NewLockAn(w)
 	checkGB(w, r, la, "R1", s1Table())
 	for _, p := range []struct{ pkg, fn, mp, lock string }{
